@@ -12,7 +12,7 @@ from concurrent.futures import ThreadPoolExecutor
 
 V = os.path.dirname(os.path.dirname(os.path.abspath(__file__)))
 EXTRA = {  # other checks that are expected to notice the change as well
-    "C01_m1": ["C09"], "C02_m2": ["C10"], "C03_m1": ["C04"], "C03_m2": ["C04"], "C04_m1": ["C03"], "C04_m2": ["C16", "C08"], "C05_m3": ["C08"],
+    "C01_m1": ["C09"], "C02_m2": ["C10"], "C03_m1": ["C04"], "C03_m2": ["C04"], "C04_m1": ["C03"], "C04_m2": ["C16", "C08"], "C04_m3": ["C01"], "C05_m3": ["C08"],
     "C08_m1": ["C14"], "C08_m2": ["C16"], "C08_m3": ["C03"], "C09_m1": ["C01"], "C11_m2": ["C15"], "C11_m3": ["C08"], "C14_m1": ["C08"],
     "C14_m2": ["C08"], "C14_m3": ["C08"], "C15_m3": ["C11"], "C16_m1": ["C08"], "C16_m2": ["C13"], "C20_m3": ["C16"],
 }
